@@ -300,10 +300,8 @@ def _ref_stream(fname, code, inside, have_req, req_is_status_server):
         return [("PKT", 0, MA_OFF + 2), zero, after]
     if code is None:
         return "error"
-    if code == "RADIUS_PKT_TYPE_ACCOUNTING_RESPONSE":
-        if have_req and req_is_status_server:
-            return [hdr, req, before, zero, after]
-        return [hdr, zero, before, zero, after]
+    # (Accounting-Response is a response: its Message-Authenticator is keyed on the Request Authenticator like every other
+    # reply; an earlier version of this table had copied the zero-vector special case from the code under analysis)
     if code in ZERO_AUTH:
         return [hdr, zero, before, zero, after]
     return [hdr, req, before, zero, after] if have_req else "error"
@@ -388,6 +386,75 @@ def stream_rule(rep, u, consts):
                 elif fname != "radius_pkt_authenticator_calc":
                     bad.append("Message-Authenticator computed with plain MD5")
                 (rep.violated if bad else rep.proved)("R-STREAM", fn, inst, desc, "; ".join(bad) if bad else "stream %s" % _merge(got))
+    return n
+
+
+def sign_verify_agreement(rep, u, consts):
+    """What the library signs it must verify.  radius_pkt_sign computes the Message-Authenticator with the packet's own
+    authenticator field "as is" (whatever radius_pkt_init / radius_pkt_reply_init put there); radius_pkt_verify chooses the
+    16 bytes by packet type (zero, the request's authenticator, or the field as is).  For every packet code and both kinds of
+    request the two choices must name the same bytes."""
+    finit = u.fn("radius_pkt_init")
+    fcalc = u.fn("radius_pkt_attr_msg_authenticator_calc")
+    if finit is None or fcalc is None:
+        raise driver.AnalysisBroken("anchors radius_pkt_init / radius_pkt_attr_msg_authenticator_calc vanished")
+    rep.functions.update([finit.name, fcalc.name])
+    n = 0
+    ARG = REQ + 4
+    for code in CODES:
+        cv = consts[code]
+        for reply in ((0,) if code in (RANDOM_AUTH | ZERO_AUTH) else (1,)):
+            # what init leaves in the field: for a reply the request's authenticator is handed in, for a request the caller's
+            pe = r_stride.PE(u)
+            ev, ret = pe.trace(finit, {"pkt": PKT, "pkt_buf_size": 4096, "pkt_size_ret": 0, "code": cv, "id": 7, "authenticator": ARG})
+            if isinstance(ret, str) or ret != 0:
+                continue
+            src = None
+            for e, b in ev:
+                for x, _ in walk(e):
+                    if x.get("k") == "call" and x.get("fn") == "memset" and "authenticator" in key(x["args"][0]):
+                        src = "ZERO"
+                    if x.get("k") == "call" and x.get("fn") == "memcpy" and "authenticator" in key(x["args"][0]):
+                        src = "ARG"
+            if src is None:
+                continue
+            for rss in ((0, 1) if reply else (0,)):
+                pe2 = r_stride.PE(u)
+                bind = {"pkt": PKT, "pkt->code": cv, "ntohs(pkt->len)": PKT_LEN, "pkt_req": REQ if reply else 0,
+                        "pkt_req->code": consts["RADIUS_PKT_TYPE_STATUS_SERVER"] if rss else consts["RADIUS_PKT_TYPE_ACCOUNTING_REQUEST"],
+                        "key": KEY, "key_len": KEY_LEN, "msg_authenticator": OUT, "pkt_authenticator_inside": 0, "attr": PKT + MA_OFF, "attr->len": 18}
+                ev2, ret2 = pe2.trace(fcalc, bind)
+                if isinstance(ret2, str) or ret2 != 0:
+                    continue
+                mem, digs = hash_events(pe2, ev2, Mem())
+                if len(digs) != 1:
+                    continue
+                st_ = _merge(_ranges(digs[0]["stream"]))
+                # the element after the 4 header bytes
+                second = st_[1] if len(st_) > 1 else None
+                if st_ and st_[0][0] == "PKT" and st_[0][1] == 0 and st_[0][2] >= 20:
+                    vsrc = "FIELD"
+                elif second and second[0] == "ZERO":
+                    vsrc = "ZERO"
+                elif second and second[0] == "REQ":
+                    vsrc = "REQ"
+                else:
+                    vsrc = "?"
+                # at signing time the field holds: ZERO, or the argument (= the request's authenticator for a reply, the
+                # caller's random bytes for a request)
+                signed = "ZERO" if src == "ZERO" else ("REQ" if reply else "FIELD")
+                n += 1
+                nm = code.replace("RADIUS_PKT_TYPE_", "")
+                inst = "sign-vs-verify[%s %s]" % (nm, ("reply to status-server" if rss else "reply") if reply else "request")
+                desc = "Message-Authenticator of %s: the authenticator bytes hashed by radius_pkt_sign and by radius_pkt_verify are the same" % nm
+                if vsrc == "?":
+                    rep.undecided("R-AGREE", fcalc, inst, desc, "verification stream not recognised: %s" % st_[:3])
+                elif signed == vsrc:
+                    rep.proved("R-AGREE", fcalc, inst, desc, "%s on both sides" % signed)
+                else:
+                    rep.violated("R-AGREE", fcalc, inst, desc, "signing hashes %s, verification hashes %s: a packet the library signed is rejected by its own "
+                                 "radius_pkt_verify" % ({"REQ": "the request's authenticator", "ZERO": "16 zero bytes", "FIELD": "the field as is"}[signed],
+                                                        {"REQ": "the request's authenticator", "ZERO": "16 zero bytes", "FIELD": "the field as is"}[vsrc]))
     return n
 
 
@@ -1003,6 +1070,7 @@ def run(rep, tier):
         npl += plen_rule(rep, u, [f for f in u.function_list if f.relfile() in own and f.has_cfg])
     rep.floor("constant-length pointer/object pairs", npl, 20)
     rep.floor("hash stream cases", stream_rule(rep, ur, consts), 200)
+    rep.floor("sign/verify authenticator sources", sign_verify_agreement(rep, ur, consts), 14)
     rep.floor("password hiding cases", hiding_rule(rep, ur), 12)
     rep.floor("builder arms", live_rule(rep, ur, consts), 5)
     rep.floor("password lengths sized", password_size_rule(rep, ur, consts), 11)
